@@ -266,6 +266,14 @@ type fakeEnv struct {
 	script     []bool // auto mode: outcomes of successive Do calls (true = nil); exhausted = nil
 	scriptPos  int
 	allBlocks  int
+	errFn      func(k int) error // auto mode: the error the k-th Do call (0-based) fails with; nil = errScripted
+	doLog      []doLogEntry      // auto mode, when logAll: every Do in call order
+	logAll     bool
+}
+
+type doLogEntry struct {
+	blk *block
+	err error
 }
 
 type loggedBlock struct {
@@ -297,13 +305,22 @@ func (c *fakeClient) Do(ctx context.Context, q ch.Query) error {
 	} else {
 		fail = c.env.rng.Chance(c.env.failDo)
 	}
+	k := c.env.nDo
 	c.env.nDo++
+	var ferr error
 	if fail {
 		c.env.nDoErr++
+		ferr = errScripted
+		if c.env.errFn != nil {
+			ferr = c.env.errFn(k)
+		}
+	}
+	if c.env.logAll {
+		c.env.doLog = append(c.env.doLog, doLogEntry{blk, ferr})
 	}
 	c.env.mu.Unlock()
 	if fail {
-		return errScripted
+		return ferr
 	}
 	// the block counts as accepted from the moment Do is about to return nil
 	c.env.mu.Lock()
